@@ -843,11 +843,14 @@ func keys(m map[string]bool) []string {
 }
 
 func TestMain(m *testing.M) {
+	vt.ReplayRepeat["tagdelete"] = 100
+	vt.ReplayRepeat["nameclash"] = 20
 	vt.Main(m, "C06",
 		vt.NewLeg("memory", 1500, 6000, 4, genCase("memory"), runCase),
 		vt.NewLeg("oci", 2000, 4000, 8, genCase("oci"), runCase),
 		vt.NewLeg("file", 700, 3000, 4, genCase("file"), runCase),
 		vt.NewLeg("nameclash", 400, 2000, 4, genClash, runClash),
+		vt.NewLeg("tagdelete", 300, 1500, 4, genTagDelete, runTagDelete),
 	)
 }
 
